@@ -148,7 +148,8 @@ REC = "rec:vector::decommit::compute_root_from_queries"
 def _c04(kind, h, k, tier, feats=DF, tag=""):
     name = "c04_%s_h%d_k%d" % (kind, h, k)
     desc = {"bind": "root of a tree over arbitrary leaves; ANY claimed values and authentication nodes: Ok => each value is the committed leaf at its index",
-            "complete": "honest leaves + honest sibling nodes (independent builder): Ok <=> commitment is the tree's root"}[kind]
+            "complete": "honest leaves + honest sibling nodes (independent builder) are accepted for the tree's root (root computed in the scenario: replays natively)",
+            "wrongroot": "honest leaves + honest sibling nodes are rejected for any commitment other than the tree's root"}[kind]
     return e1("C04.%s.h%d.k%d%s" % (kind, h, k, tag), name,
               "height %d (%d leaves, any felts), %d sorted distinct query indices (symbolic), friendly-layer count any in 0..=%d, authentication vector of %d arbitrary felts" % (h, 1 << h, k, h + 1, h * k),
               desc, tier=tier, features=feats, timeout=2400, unwindset={REC: h * k + 2}, mem=(10 if h * k <= 2 else 24))
@@ -163,6 +164,7 @@ PROPS["C04"] = dict(
         _c04("bind", 2, 1, Q, BLAKE, ".blake2s_248"),
         _c04c(2, T), _c04("complete", 2, 1, T, BLAKE, ".blake2s_248"),
         _c04("bind", 2, 2, T), _c04("bind", 2, 2, T, BLAKE, ".blake2s_248"), _c04("complete", 2, 2, T, BLAKE, ".blake2s_248"),
+        _c04("wrongroot", 2, 1, Q), _c04("wrongroot", 2, 2, T), _c04("wrongroot", 3, 2, T),
         _c04("bind", 3, 1, T), _c04("bind", 3, 2, T), _c04("bind", 3, 3, T), _c04("complete", 3, 2, T), _c04("complete", 3, 3, T), _c04c(3, T),
         _c04("bind", 2, 2, T, K248, ".keccak_248"), _c04("complete", 2, 2, T, K248, ".keccak_248"),
         _c04("bind", 2, 2, T, B160, ".blake2s_160"), _c04("complete", 2, 2, T, B160, ".blake2s_160"),
